@@ -5,7 +5,7 @@ use crate::{
     error::{err, ErrorContext},
     fmt::{friendly, temporal},
     tz::Offset,
-    util::{escape, rangeint::TryRFrom, t},
+    util::{escape, rangeint::TryRFrom, round::increment, t},
     Error, RoundMode, Timestamp, Unit, Zoned,
 };
 
@@ -2479,8 +2479,9 @@ impl SignedDurationRound {
                 plural = self.smallest.plural(),
             ));
         }
+        let increment =
+            increment::for_signed_duration(self.smallest, self.increment)?;
         let nanos = t::NoUnits128::new_unchecked(dur.as_nanos());
-        let increment = t::NoUnits::new_unchecked(self.increment);
         let rounded = self.mode.round_by_unit_in_nanoseconds(
             nanos,
             self.smallest,
